@@ -51,9 +51,10 @@ static inline BA ba_lit(const char *s, int len) { BA r = ba_empty(); MODEL_LIMIT
 static inline BA qs_as_ba(QS x) { BA r; r.n = x.n; for (int i = 0; i < TERM_L; i++) r.a[i] = x.a[i]; return r; }
 static inline QS ba_as_qs(BA x) { QS r; r.n = x.n; for (int i = 0; i < TERM_L; i++) r.a[i] = x.a[i]; return r; }
 
-/* an input about which nothing is known: the empty string or one opaque chunk */
-static inline bool ba_opaque(BA x) { return ba_wf(x) && x.n <= 1 && (x.n == 0 || x.a[0] > 256); }
-static inline bool qs_opaque(QS x) { return ba_opaque(qs_as_ba(x)); }
+/* an input about which nothing is known: the empty string or one chunk (for a QString: not a non-ASCII literal character,
+   which the UTF-8 model does not represent) */
+static inline bool ba_opaque(BA x) { return ba_wf(x) && x.n <= 1; }
+static inline bool qs_opaque(QS x) { return ba_wf(qs_as_ba(x)) && x.n <= 1 && !(x.n == 1 && x.a[0] > 128 && x.a[0] <= 256); }
 
 /* ---- free constructors */
 int __CPROVER_uninterpreted_t_id(BA x);                          /* hash-consing: the identity of a non-empty sequence */
@@ -83,6 +84,15 @@ static inline BA T_HEX(BA x) { return x.n == 0 ? ba_empty() : ba_atom(__CPROVER_
 static inline BA T_XOR(BA x, BA y) { int i = ba_id(x), j = ba_id(y); return ba_atom(i <= j ? __CPROVER_uninterpreted_t_xor(i, j) : __CPROVER_uninterpreted_t_xor(j, i)); }
 static inline int T_TOINT(BA x) { return x.n == 0 ? 0 : __CPROVER_uninterpreted_t_toInt(ba_id(x)); }
 static inline bool T_STARTSWITH(BA a, BA b) { if (b.n == 0 || ba_eq(a, b)) return true; if (a.n == 0) return false; return __CPROVER_uninterpreted_t_startsWith(ba_id(a), ba_id(b)); }
+/* QByteArray::replace(char before, const char *after) on a value of at most one atom: a concrete byte is replaced or kept; an opaque
+   chunk becomes the chunk "with every `before` replaced by `after`" (a function of the three; it may or may not differ from the chunk) */
+int __CPROVER_uninterpreted_t_replace(int chunk, char before, int after);
+static inline BA T_REPLACE(BA x, char before, BA after) {
+  MODEL_LIMIT(x.n <= 1 && after.n >= 1, "replace() on a value of more than one atom, or with an empty replacement");
+  if (x.n == 0) return x;
+  if (x.a[0] >= 1 && x.a[0] <= 256) return x.a[0] == TERM_BYTE(before) ? after : x;
+  return ba_atom(__CPROVER_uninterpreted_t_replace(x.a[0], before, ba_id(after)));
+}
 /* utf8 of a string (A-UTF8-HOM): character by character; an ASCII character is its own encoding, and an opaque chunk x of a
    QString and its UTF-8 encoding carry the same atom number (the two sorts never mix except through toUtf8, and UTF-8 is
    injective, so this is just a choice of names).  Non-ASCII literal characters are not represented. */
@@ -105,6 +115,7 @@ static inline void BA_toBase64(BA *r, const BA *x) { *r = T_B64(*x); }
 static inline void BA_fromBase64(BA *r, const BA *x) { *r = T_B64DEC(*x); }
 static inline void BA_toHex(BA *r, const BA *x) { *r = T_HEX(*x); }
 static inline int BA_toInt(const BA *x) { return T_TOINT(*x); }
+static inline void BA_replace_char(BA *x, char before, const BA *after) { *x = T_REPLACE(*x, before, *after); }
 static inline void QS_ctor(QS *r) { *r = ba_as_qs(ba_empty()); }
 static inline void QS_assign(QS *d, const QS *s) { *d = *s; }
 static inline bool QS_isEmpty(const QS *x) { return x->n == 0; }
@@ -112,6 +123,12 @@ static inline void QS_toUtf8(BA *r, const QS *s) { *r = T_UTF8(*s); }
 static inline void QS_concat(QS *r, const QS *x, const QS *y) { *r = ba_as_qs(ba_cat(qs_as_ba(*x), qs_as_ba(*y))); }
 static inline void QS_char_concat(QS *r, quint16 c, const QS *y) { MODEL_LIMIT(c < 128, "non-ASCII literal character"); *r = ba_as_qs(ba_cat(ba_atom((int)c + 1), qs_as_ba(*y))); }
 static inline void QS_concat_char(QS *r, const QS *x, quint16 c) { MODEL_LIMIT(c < 128, "non-ASCII literal character"); *r = ba_as_qs(ba_cat(qs_as_ba(*x), ba_atom((int)c + 1))); }
+/* QCryptographicHash::hashLength (Qt 5.15 enum values: Md4 0, Md5 1, Sha1 2, Sha224 3, Sha256 4, Sha384 5, Sha512 6, Keccak_224..512 7..10,
+   RealSha3_224..512 11..14); output length of the hash in bytes */
+static inline int QCryptographicHash_hashLength(int alg) {
+  switch (alg) { case 0: case 1: return 16; case 2: return 20; case 3: case 7: case 11: return 28; case 4: case 8: case 12: return 32; case 5: case 9: case 13: return 48; case 6: case 10: case 14: return 64; }
+  return 0;
+}
 /* digests of one algorithm have one length (needed where the code XORs two digests byte by byte) */
 static inline void T_digest_len(BA *d, int alg) { __CPROVER_assume(__CPROVER_uninterpreted_t_alen(d->a[0]) == __CPROVER_uninterpreted_t_hashlen(alg)); }
 static inline void QCryptographicHash_hash(BA *r, const BA *data, int alg) { *r = T_H(alg, *data); T_digest_len(r, alg); }
